@@ -58,11 +58,16 @@ def bit_size_table(ctx, prog, rule):
     for vi, v in enumerate(adt["variants"]):
         g = assume_cfg(f, [(lambda s_: strip(s_) == ("param", 1) or leaf_name(s_) == "arg1", vi)])
         r = reach(g, [0])
+        # values are resolved on the view pruned to this variant: an or-pattern arm `ScaledInteger{min,max} | Integer{min,max}`
+        # binds min / max from the variant at hand
+        from simple_rules import fn_view
+        fv = fn_view(f, g)
+        Rv = Resolver(fv)
         vals = []
-        for bi, si, cls, payload in f.ret_assignments():
+        for bi, si, cls, payload in fv.ret_assignments():
             if bi not in r:
                 continue
-            tr = R._call(payload, bi, 0, frozenset()) if cls == "fwd" or (isinstance(payload, dict) and payload.get("k") == "call") else R.rvalue(payload)
+            tr = Rv._call(payload, bi, 0, frozenset()) if cls == "fwd" or (isinstance(payload, dict) and payload.get("k") == "call") else Rv.rvalue(payload)
             tr = strip(tr)
             c = _const_bits(tr)
             if c is not None:
